@@ -355,3 +355,70 @@ def pickle_pairing(ctx) -> None:
     ctx.ob("PICKLE-pairing", "class defaults immutable", K.module.relpath + f":{K.node.lineno}", not bad,
            "class-level defaults of the drivers are immutable: all evolving state is in __dict__ and is pickled"
            if not bad else f"mutable class-level defaults {bad} are shared across instances and not pickled")
+
+
+ENUM_BASES = {"Enum", "IntEnum", "StrEnum", "Flag", "IntFlag", "enum.Enum", "enum.IntEnum", "enum.StrEnum", "enum.Flag", "enum.IntFlag"}
+
+
+def _is_enum_class(prog, K, seen=None) -> bool:
+    seen = seen or set()
+    if K is None or K.qualname in seen:
+        return False
+    seen.add(K.qualname)
+    for q, expr in zip(K.bases + [None] * len(K.base_exprs), K.base_exprs):
+        if (q in ENUM_BASES) or util.text(expr) in ENUM_BASES:
+            return True
+    return any(_is_enum_class(prog, prog.classes.get(q), seen) for q in K.bases)
+
+
+def identity_tests_survive_pickling(ctx) -> None:
+    """The driver object is pickled by the autosave and continued after unpickling.  An identity test (`is` / `is not`) on
+    one of its fields keeps its meaning across that round trip only against None/True/False or a member of an Enum
+    (members unpickle to the same singleton); a string, tuple or plain class attribute unpickles to a *new* object, so the
+    test silently turns False after resume."""
+    prog = ctx.prog
+    root = prog.cls(IMPL)
+    classes = [K for K in prog.classes.values() if K is root or root in prog.mro(K)]
+    n = 0
+    bad = []
+    for K in classes:
+        for m in K.methods.values():
+            for node in util.walk_own(m.node):
+                if not isinstance(node, ast.Compare):
+                    continue
+                operands = [node.left] + list(node.comparators)
+                for k, op in enumerate(node.ops):
+                    if not isinstance(op, (ast.Is, ast.IsNot)):
+                        continue
+                    a, b = operands[k], operands[k + 1]
+                    if any(isinstance(x, ast.Constant) and (x.value is None or isinstance(x.value, bool) or x.value is Ellipsis) for x in (a, b)):
+                        continue
+                    touches_self = any(isinstance(x, ast.Attribute) and isinstance(x.value, ast.Name) and x.value.id == "self"
+                                       for y in (a, b) for x in ast.walk(y))
+                    if not touches_self:
+                        continue
+                    n += 1
+                    ok = False
+                    for x in (a, b):
+                        if isinstance(x, ast.Attribute) and isinstance(x.value, ast.Name):
+                            C = prog.classes.get(K.module.name + "." + x.value.id)
+                            if C is None:
+                                q = K.module.imports.get(x.value.id) if hasattr(K.module, "imports") else None
+                                C = prog.classes.get(q) if q else None
+                            if C is not None and _is_enum_class(prog, C):
+                                ok = True
+                    if not ok:
+                        bad.append((m, node))
+    # zero sites is a legitimate state of the code (all tests written with ==); the recogniser itself is exercised on a
+    # tiny positive example on every run so that it cannot rot into matching nothing
+    probe = ast.parse("class P:\n    def f(self):\n        return self.mode is Mode.A or self.x is None\n").body[0].body[0]
+    hits = [c for c in ast.walk(probe) if isinstance(c, ast.Compare) and isinstance(c.ops[0], (ast.Is, ast.IsNot)) and
+            not any(isinstance(x, ast.Constant) for x in [c.left] + c.comparators)]
+    ctx.require(len(hits) == 1, "PICKLE-identity: self-test of the identity-test recogniser failed")
+    ctx.count("identity tests on driver fields", n)
+    ctx.ob("PICKLE-identity", "identity tests on pickled fields compare with singletons", f"{root.module.relpath}:{root.node.lineno}",
+           not bad,
+           f"{n} identity test(s) on fields of the pickled driver compare with Enum members (singletons after unpickling)" if not bad else
+           f"{bad[0][0].qualname}: `{util.text(bad[0][1], 70)}` at line {bad[0][1].lineno} compares a field of the pickled driver by "
+           f"identity with a value that is not a singleton after unpickling: true before the autosave, false after resume "
+           f"(the resumed run takes the other branch)")
